@@ -290,6 +290,16 @@ Proof.
     repeat (constructor; [cbn; intuition discriminate|]); constructor.
 Qed.
 
+Lemma nodup_app {A} (a b : list A) :
+  NoDup a -> NoDup b -> (forall x, In x a -> In x b -> False) -> NoDup (a ++ b).
+Proof.
+  induction a as [|y a IH]; cbn; intros Ha Hb Hd; [exact Hb|].
+  inversion Ha as [|? ? Hn Hr]; subst. constructor.
+  - intro Hin. apply in_app_or in Hin. destruct Hin as [Hin|Hin]; [contradiction|].
+    apply (Hd y); [left; reflexivity|exact Hin].
+  - apply IH; [exact Hr|exact Hb|]. intros x H1 H2. apply (Hd x); [right; exact H1|exact H2].
+Qed.
+
 Definition cmiss (fl : flags) (t : task) (fs : files) (it : item) : bool :=
   requested fl it && negb (fhas (tkey t it) fs).
 Lemma missing_filter fl t fs : missing fl t fs = map (pair t) (filter (cmiss fl t fs) items3).
@@ -336,7 +346,8 @@ Section Est4.
   Proof. apply puts_mono. Qed.
   Lemma complete_all_mono fl : forall l fs k, fhas k fs = true -> fhas k (complete_all fl l fs) = true.
   Proof.
-    induction l as [|t r IH]; intros fs k H; cbn; [exact H|]. apply IH, complete_task_mono, H.
+    induction l as [|t r IH]; intros fs k H; cbn [Proofs.complete_all]; [exact H|].
+    apply IH, complete_task_mono, H.
   Qed.
   Lemma missing_nil_mono fl t fs fs' :
     missing fl t fs = [] -> (forall k, fhas k fs = true -> fhas k fs' = true) -> missing fl t fs' = [].
@@ -349,10 +360,10 @@ Section Est4.
   Lemma complete_task_id fl t fs : missing fl t fs = [] -> complete_task fl t fs = fs.
   Proof. unfold Proofs.complete_task. intros ->. reflexivity. Qed.
   Lemma complete_all_app fl a b fs : complete_all fl (a ++ b) fs = complete_all fl b (complete_all fl a fs).
-  Proof. revert fs. induction a as [|t r IH]; intro fs; cbn; [reflexivity|]. apply IH. Qed.
+  Proof. revert fs. induction a as [|t r IH]; intro fs; cbn [app Proofs.complete_all]; [reflexivity|]. apply IH. Qed.
   Lemma complete_all_complete fl : forall l fs t, In t l -> missing fl t (complete_all fl l fs) = [].
   Proof.
-    induction l as [|t0 r IH]; intros fs t Hin; [destruct Hin|]. cbn. destruct Hin as [->|Hin].
+    induction l as [|t0 r IH]; intros fs t Hin; [destruct Hin|]. cbn [Proofs.complete_all]. destruct Hin as [->|Hin].
     - apply (missing_nil_mono fl t (complete_task fl t fs)); [apply complete_task_complete|].
       intros k Hk. apply complete_all_mono, Hk.
     - apply IH, Hin.
@@ -387,7 +398,7 @@ Section Est4.
   Lemma all_missing_sound fl : forall l fs x, In x (all_missing fl l fs) ->
     fhas (ikey x) fs = false /\ In (fst x) l /\ requested fl (snd x) = true.
   Proof.
-    induction l as [|t r IH]; intros fs x Hin; [destruct Hin|]. cbn in Hin. apply in_app_or in Hin.
+    induction l as [|t r IH]; intros fs x Hin; [destruct Hin|]. cbn [Proofs.all_missing] in Hin. apply in_app_or in Hin.
     destruct Hin as [Hin|Hin].
     - apply missing_in in Hin. destruct Hin as [A [B C]]. split; [exact C|]. split; [left; auto|exact B].
     - destruct (IH _ _ Hin) as [A [B C]]. split; [|split; [right; exact B|exact C]].
@@ -397,7 +408,7 @@ Section Est4.
   Lemma all_missing_complete fl : forall l fs t it, In t l -> requested fl it = true ->
     fhas (tkey t it) fs = false -> In (tkey t it) (map ikey (all_missing fl l fs)).
   Proof.
-    induction l as [|t0 r IH]; intros fs t it Hin Hr Hf; [destruct Hin|]. cbn. rewrite map_app.
+    induction l as [|t0 r IH]; intros fs t it Hin Hr Hf; [destruct Hin|]. cbn [Proofs.all_missing]. rewrite map_app.
     apply in_or_app. destruct (fhas (tkey t it) (complete_task fl t0 fs)) eqn:E.
     - left. unfold Proofs.complete_task in E.
       destruct (puts_fget fitf predf (missing fl t0 fs) fs (tkey t it)) as [E'|[x [Hx [Hk _]]]].
@@ -409,16 +420,16 @@ Section Est4.
   Qed.
   Lemma all_missing_nodup fl : forall l fs, NoDup (map ikey (all_missing fl l fs)).
   Proof.
-    induction l as [|t r IH]; intro fs; cbn; [constructor|]. rewrite map_app.
-    apply NoDup_app_iff'. split; [apply missing_nodup|]. split; [apply IH|].
-    intros k [H1 H2]. apply in_map_iff in H1. destruct H1 as [x [<- Hx]].
+    induction l as [|t r IH]; intro fs; cbn [Proofs.all_missing]; [constructor|]. rewrite map_app.
+    apply nodup_app; [apply missing_nodup|apply IH|].
+    intros k H1 H2. apply in_map_iff in H1. destruct H1 as [x [<- Hx]].
     apply in_map_iff in H2. destruct H2 as [y [Hy Hy2]].
     destruct (all_missing_sound fl _ _ _ Hy2) as [A _]. rewrite Hy in A.
     unfold Proofs.complete_task in A. rewrite (puts_has fitf predf _ fs x Hx) in A. discriminate.
   Qed.
   Lemma need_fit_sound fl : forall l fs t, In t (need_fit fl l fs) -> In t l /\ missing fl t fs <> [].
   Proof.
-    induction l as [|t0 r IH]; intros fs t Hin; [destruct Hin|]. cbn in Hin. apply in_app_or in Hin.
+    induction l as [|t0 r IH]; intros fs t Hin; [destruct Hin|]. cbn [Proofs.need_fit] in Hin. apply in_app_or in Hin.
     destruct Hin as [Hin|Hin].
     - destruct (missing fl t0 fs) eqn:E; [destruct Hin|]. destruct Hin as [<-|[]].
       split; [left; reflexivity|congruence].
